@@ -41,6 +41,7 @@ func hasLoop(fn *ssa.Function) bool {
 func (e *Exec) call(fr *Frame, st *State, x *ssa.Call) (Value, bool) {
 	c := &x.Call
 	e.onCall(fr, st, x)
+	e.sharedPrinterTouch(st, x)
 	if fr.parent == nil {
 		if k := "L$ncall_" + calleeName(c); st.heap[k] != nil {
 			st.heap[k] = e.def(SInt, Add(st.heap[k], IntLit(1)))
@@ -249,7 +250,9 @@ func (e *Exec) inline(fr *Frame, st *State, x *ssa.Call, callee *ssa.Function) (
 	return res, true
 }
 
-func (e *Exec) atNoReturnCall(fr *Frame, st *State, x *ssa.Call, callee *ssa.Function) {}
+func (e *Exec) atNoReturnCall(fr *Frame, st *State, x *ssa.Call, callee *ssa.Function) {
+	e.acceptsCheck(fr, st, callee.Name(), e.posOf(x))
+}
 
 func (e *Exec) sl(fr *Frame, st *State, v ssa.Value) *Term { return e.term(fr, st, v) }
 
@@ -527,6 +530,26 @@ func (e *Exec) knownCall(fr *Frame, st *State, x *ssa.Call, callee *ssa.Function
 		full = callee.String()
 	}
 	switch full {
+	case "github.com/ohler55/ojg/sen.MustParse", "github.com/ohler55/ojg/sen.MustParseReader", "github.com/ohler55/ojg/sen.Parse",
+		"github.com/ohler55/ojg/oj.MustParse", "github.com/ohler55/ojg/oj.MustParseString", "github.com/ohler55/ojg/oj.Parse", "github.com/ohler55/ojg/oj.ParseString":
+		// assumed contract of the dependency (listed): the package-level parse functions build a new document
+		// on every call - what they return shares nothing with the result of an earlier call
+		e.argsEscape(fr, st, &x.Call)
+		v := e.havocValue(x.Type(), st.pc, "doc")
+		var doc *Term
+		switch tv := v.(type) {
+		case *Term:
+			doc = tv
+		case *Tuple:
+			if len(tv.Vs) > 0 {
+				doc, _ = tv.Vs[0].(*Term)
+			}
+		}
+		if doc != nil && doc.Sort == SObj {
+			id := e.alloc(st, "doc")
+			e.assume(st.pc, Eq(App(SInt, "o-int", doc), id))
+		}
+		return v, true, true
 	case "strconv.AppendInt", "strconv.AppendUint":
 		// assumed contract: b ++ the digits of v in the given base (abstract digit functions ndig/dig)
 		b := e.term(fr, st, x.Call.Args[0])
